@@ -34,7 +34,7 @@ import (
 	"verif/internal/vrun"
 )
 
-var prefixes = []string{"app", "APP", "My_App", "a1", ""}
+var prefixes = []string{"app", "APP", "My_App", "a1", "", "svc_"}
 var formats = []string{"yaml", "json", "toml"}
 var srcNames = []string{"dflt", "file", "env", "flag", "fdef"}
 var flagModeNames = []string{"none", "single-unchanged", "single-changed", "multi-one-changed", "multi-none-changed"}
